@@ -14,6 +14,7 @@ static int       wid[MAXW], wpipe[MAXW], nw, wdeliv[MAXW];
 static int       last_deliv_on_pipe[MAXP];
 static int       noted[MAXU];
 static int       is_recv[MAXU];
+static int       got_w[MAXU]; /* 1 + index of the arrival the receive got (0: none yet) */
 
 static int
 count_on_pipe(int p, int id)
@@ -50,6 +51,14 @@ sweep(void)
 				CHECK(wdeliv[w] == 1, "a message is delivered at most once");
 				CHECK(w + 1 > last_deliv_on_pipe[wpipe[w]], "messages from one peer are delivered in that peer's send order");
 				last_deliv_on_pipe[wpipe[w]] = w + 1;
+				/* receives are served in the order they were posted: an application that keeps several receives
+				 * outstanding and reads them in that order sees each peer's messages in send order */
+				got_w[i] = w + 1;
+				for (int j = 0; j < MAXU; j++) {
+					if (j == i || !got_w[j] || wpipe[got_w[j] - 1] != wpipe[w])
+						continue;
+					CHECK((j < i) == (got_w[j] < got_w[i]), "of two outstanding receives the one posted first gets the earlier message of a peer");
+				}
 #ifdef RAW
 				CHECK(nni_msg_header_len(m) == 4 && nni_msg_header_peek_u32(m) == kpipe[wpipe[w]].id,
 				    "raw receive: header names the pipe the message arrived on");
